@@ -18,8 +18,9 @@ META = {
             'y feasible path (advances an iterator, pops, yields, shortens the piece in hand, descends into a smaller objec'
             't); (c) the width handed to the string splitter has a constant lower bound >= 1 and the splitter refuses non-p'
             'ositive widths; (d) the look-ahead shortcut of the sequence builder is a lower bound of the real width; (e) on'
-            ' every cyclic object graph of the wrapper model the interpreted pipeline reaches the recursion marker. The deg'
-            'ree of the polynomial is NOT decided.',
+            ' every cyclic object graph of the wrapper model the interpreted pipeline reaches the recursion marker; (f) a co'
+            'mparison of two sort keys creates no further sort keys (no recursive, both-orders comparison of nested tuple '
+            'keys). The degree of the polynomial is NOT decided.',
     'note': "multiplicity 2 on a child gives T(depth) >= 2 T(depth-1); the dict printer's second render of a commented valu"
             'e is a listed known finding',
     'technique': 'static analysis: multiplicity dataflow, loop classification over feasible paths, linear lower bounds, small-sc'
